@@ -7,10 +7,19 @@
   `m.pv.clen.uiVal` when a Content-Length header was parsed.
 
   Proved: the full body table (`body_*`), the derived facts "success exactly when n bytes follow" and
-  "offset = first byte after the body". NOT yet proved: the pipelining corollary (needs L1 + L3 + C12 at
-  message level); it is checked by the correspondence and the pipeline oracle only.
+  "offset = first byte after the body".
+  Pipelining (`Sipsp.Proofs.ShiftMsg`, from the message-level position independence of C11): `pipeline_second_message`
+  — if the first message fills `b1` exactly (OK at `o1 = len(b1)`), parsing `b1 ++ b2` at `o1` from an Init object gives
+  the result of parsing `b2` alone at 0 with the offset and every field moved by `len(b1)`, whatever `b2` is (valid or
+  not, complete or not); `pipeline_second_message_ok`: when `b2` alone parses OK at `o2`, the pipelined call returns
+  exactly `(len(b1) + o2, OK, the moved message)`; `pipeline_nth_message`: the same for message `i` of a list of
+  messages laid out one after the other. Together with the body table ("offset = first byte after the body") this
+  is the property's "parsing resumes exactly there and the next message parses as it would alone".
+  NOT proved: that message `i` of a pipeline equals that message parsed in a buffer that ENDS with it (needs the flags
+  under which the body is not "the rest of the buffer"; that is C03's extension theorem, composed by the oracle only).
 -/
 import Sipsp.Model.Msg
+import Sipsp.Proofs.ShiftMsg
 
 namespace Sipsp.C06
 open Sipsp
@@ -93,5 +102,24 @@ example : hasFlag 5 SIPMsgSkipBodyF = true ∧ hasFlag 5 SIPMsgCLenReqF = false 
 example : (parseSIPMsg
     #[65, 32, 66, 32, 67, 13, 10, 108, 58, 50, 13, 10, 13, 10, 120, 121, 122] 0
     ({} : PSIPMsg) 0).1 = 16 := by decide +kernel
+
+/-! ### pipelining: the next message in the same buffer (proved in `Sipsp.Proofs.ShiftMsg`) -/
+
+/-- **pipelined messages (property C06)**: when the first message fills `b1` exactly (ParseSIPMsg on `b1` from an
+    Init object says OK at offset `o1 = b1.size`), parsing the buffer `b1 ++ b2` at offset `o1` from an Init object
+    gives the result of parsing `b2` alone at offset 0 moved by `b1.size` (`smResM`): the same verdict, the returned
+    offset + `b1.size`, and every field of the message object (first line, headers, values, body, `Buf` / `RawMsg`
+    bookkeeping) moved by exactly `b1.size` — numbers, counts and flags unchanged. (`len` is what Init records as
+    `len(msg.Buf)`; the parser never reads it.) -/
+theorem pipeline_second_message : type_of% @_root_.pipeline_second_message := @_root_.pipeline_second_message
+
+/-- … and when the second message parses successfully on its own, the pipelined call returns exactly the moved
+    message: OK at `b1.size + o2` with `shMsg b1.size m2` -/
+theorem pipeline_second_message_ok : type_of% @_root_.pipeline_second_message_ok := @_root_.pipeline_second_message_ok
+
+/-- **any message of a pipeline**: in the buffer that holds the messages `l` one after the other, parsing at the
+    offset where message `i` starts (from an Init object) gives the result of parsing the rest of the pipeline
+    (messages `i, i+1, …` in a buffer of their own, at offset 0) moved by the total size of the messages before it -/
+theorem pipeline_nth_message : type_of% @_root_.pipeline_nth_message := @_root_.pipeline_nth_message
 
 end Sipsp.C06
